@@ -696,6 +696,7 @@ func runC05(r *Report, tier string) {
 	r.floor("R05.5", nIV, 1, "decode-side IV check call sites")
 
 	c05Buckets(r, "R05.5")
+	checkValidatorExhaustive(r, "R05.5")
 	c05BstrNil(r, isTF)
 	checkCountersigValuePredicate(r, "R05.7")
 }
